@@ -86,6 +86,7 @@ func RunE3(env *Env, job *E3Job) *E3Res {
 		}
 	}
 	shape, hshape := "?", "?"
+	ownStream := false // the faulted call is a call on a handle that has read or seeked before
 	hist := ops.HistString(job.Hist)
 	if job.Fault != nil {
 		hist += fmt.Sprintf("   [fault: event %d at seam %s of the last call fails]", job.Fault.K, seam)
@@ -145,6 +146,11 @@ func RunE3(env *Env, job *E3Job) *E3Res {
 		} else {
 			shape = rawShape(st, o)
 		}
+		if strings.HasPrefix(o.K, "h") && o.K != "hopen" {
+			if h := st.Handles[o.H]; h != nil && (h.Reads > 0 || h.Seeks > 0) {
+				ownStream = true
+			}
+		}
 		hshape = handlesShape(old)
 		st.ResetCounts()
 		st.Armed = job.Fault
@@ -191,7 +197,13 @@ func RunE3(env *Env, job *E3Job) *E3Res {
 		switch pk {
 		case "call", "probe":
 			_ = hshape
-			viol(fmt.Sprintf("C10|hang|%s", info.Hang.Key()),
+			// who is blocked: a call on the very handle whose streaming read is under way (that handle can always finish or
+			// abandon its own stream), or some other call (the drive is held by somebody else's stream: D11)
+			blocked := "other-call"
+			if pk == "call" && ownStream {
+				blocked = "own-handle"
+			}
+			viol(fmt.Sprintf("C10|hang|%s|blocked=%s", info.Hang.Key(), blocked),
 				fmt.Sprintf("%s\ndeadlock in phase %q; waiters: %+v", hist, info.Hang.Phase, info.Hang.Waiters))
 		case "cleanup":
 			viol(fmt.Sprintf("C10|hang-in-close|%s", info.Hang.Key()),
